@@ -24,7 +24,7 @@ ASSUMPTIONS = ['denotations are computed by pv/core/cons.py']
 SHARDS = {'quick': (16, 150), 'thorough': (16, 4000)}
 BUDGET = {'quick': 100, 'thorough': 1500}
 MIN_NONTRIVIAL = {'quick': 300, 'thorough': 5000}
-SCALARS = ['INTEGER', 'INTEGER', 'OCTETSTRING', 'BITSTRING', 'IA5String', 'UTF8String', 'PrintableString']
+SCALARS = ['INTEGER', 'INTEGER', 'OCTETSTRING', 'BITSTRING', 'IA5String', 'UTF8String', 'PrintableString', 'OID']
 
 
 def shards(tier):
@@ -84,6 +84,8 @@ def value_of(kind, obj):
     if kind == 'BITSTRING':
         n = len(obj)
         return (n, int(obj.asInteger()) if n else 0)
+    if kind == 'OID':
+        return tuple(int(x) for x in obj)
     return str(obj)
 
 
@@ -130,7 +132,7 @@ def run_case(case):
                 got2 = True
             except error.ValueConstraintError:
                 got2 = False
-            except error.PyAsn1Error:
+            except Exception:
                 got2 = got
             if got2 != got:
                 F('denotation', 'object-initialiser', '%s(<unconstrained %s object %r>) %s but %s(%r) %s | %s' % (
@@ -140,15 +142,15 @@ def run_case(case):
                 for depth_, anc in enumerate(chain[1:-1]):
                     try:
                         anc.clone(py(kind, x))
-                    except error.PyAsn1Error:
+                    except Exception:
                         F('chain', 'not-a-subset', 'value %r admitted by the derived type but not by ancestor %d | %s' % (x, depth_ + 1, desc))
         # (b) no bypass
         inside = [x for x in case['cands'] if admits_all(exprs, kind, x)]
         for x in inside[:3]:
             try:
                 o = T.clone(py(kind, x))
-            except error.PyAsn1Error:
-                continue
+            except Exception:
+                continue            # (reported by (a))
             for opname, fn in operations(kind, case['operands']):
                 try:
                     r = fn(o)
@@ -202,8 +204,8 @@ def run_case(case):
                 x = inside[0]
                 try:
                     cv = T.clone(py(kind, x))
-                except error.PyAsn1Error:
-                    cv = None
+                except Exception:
+                    cv = None               # (reported by (a))
                 # the value may have travelled (pickled to another process and back, copied): it is still a value of the child type
                 tr = case.get('transport', 'none')
                 if cv is not None and tr != 'none':
@@ -335,6 +337,12 @@ def operations(kind, operands):
                 ('clone', lambda o: o.clone(x * 3)), ('subtype', lambda o: o.subtype(x * 5)), ('clone-empty', lambda o: o.clone(b'')),
                 ('+obj', lambda o: o + univ.OctetString(x)), ('clone-obj', lambda o: o.clone(univ.OctetString(x * 4))),
                 ('subtype-obj', lambda o: o.subtype(univ.OctetString(b'')))]
+    if kind == 'OID':
+        arc = (abs(a) % 5,)
+        return [('+', lambda o: o + arc), ('+2', lambda o: o + (1, 4)), ('radd', lambda o: (1, 3) + o), ('slice[:3]', lambda o: o[:3]),
+                ('slice[:-1]', lambda o: o[:-1]), ('slice[:2]', lambda o: o[:2]), ('clone', lambda o: o.clone((1, 3, 6, 1))),
+                ('clone-str', lambda o: o.clone('1.3.6.2')), ('subtype', lambda o: o.subtype((1, 3, 6))),
+                ('clone-obj', lambda o: o.clone(univ.ObjectIdentifier((1, 3, 6, 1)))), ('+obj', lambda o: o + univ.ObjectIdentifier((2,)))]
     if kind == 'BITSTRING':
         return [('+', lambda o: o + o), ('<<1', lambda o: o << 1), ('<<9', lambda o: o << 9), ('>>1', lambda o: o >> 1),
                 ('slice[1:]', lambda o: o[1:]), ('slice[:1]', lambda o: o[:1]), ('slice[:0]', lambda o: o[:0]),
@@ -394,6 +402,8 @@ def run_shard(desc, seed, tier, col):
                 cands += [b'']
             elif kind == 'BITSTRING':
                 cands += [(0, 0)]
+            elif kind == 'OID':
+                cands += [(1, 3, 6, 1)]
             else:
                 cands += ['']
             return {'what': 'scalar', 'kind': kind, 'exprs': exprs, 'tags': tags, 'cands': cands, 'operands': [d.int(-300, 300), d.pick([2, 7, 128, -129])],
